@@ -100,6 +100,18 @@ func FindGrouping(n Node, name string, seen map[string]bool) *Grouping {
 				}
 			}
 		}
+		if m, ok := n.(*Module); ok && m.BelongsTo != nil && !strings.Contains(name, ":") {
+			// A submodule also sees the groupings of the module it
+			// belongs to and of that module's other submodules (RFC 7950
+			// section 5.1).
+			seen[m.Name] = true
+			if owner := module(m); owner != nil && owner != m && !seen[owner.Name] {
+				seen[owner.Name] = true
+				if g := FindGrouping(owner, name, seen); g != nil {
+					return g
+				}
+			}
+		}
 		n = n.ParentNode()
 	}
 	return nil
